@@ -1,5 +1,7 @@
 """Registry of harness runs per property (bounds are the harness parameters)."""
 
+WS_NOTE = ("websocketTransport.Send/Receive/Close run from their SSA over a model of gorilla's websocket.Conn (v1.4.2: WriteJSON = one write of the message armed with the *stored* write deadline, sticky read/write errors, SetReadDeadline straight to the socket, concurrent writers panic); natively the witnesses run the real gorilla code over an adapter connection. ")
+
 COMMON_ASSUMPTIONS = [
     "symbolic strings are byte vectors of bounded capacity with 7-bit bytes (multi-byte UTF-8 is outside the claim)",
     "encoding/json is replaced by the engine's model of its documented dispatch (DESIGN.md 2.5); lime-go's own "
@@ -41,7 +43,7 @@ CHECKS = {
              "reach": ["fixtures:done"], "compare": "RT", "replay_reach": 1},
             {"harness": "HarnessC01TextForms", "grid": {"form": [0, 1, 2, 3, 4, 5]}, "params": {"tcap": 6}, "tier": "quick"},
             {"harness": "HarnessC01TextForms", "grid": {"form": [0, 1, 2]}, "params": {"tcap": 10}, "tier": "thorough", "qtimeout": 300},
-            {"harness": "HarnessC01Message", "grid": {"doc": [0, 1, 2, 3, 4, 5]}, "params": {"cap": 2, "depth": 1},
+            {"harness": "HarnessC01Message", "grid": {"doc": [0, 1, 2, 3, 4, 5, 6, 7]}, "params": {"cap": 2, "depth": 1},
              "reach": ["c01:message-built", "c01:message-roundtrip-done"], "tier": "quick"},
             {"harness": "HarnessC01Message", "grid": {"doc": [0, 1, 2, 3, 4, 5], "depth": [2, 3]}, "params": {"cap": 3, "items": 2, "meta": 2},
              "reach": ["c01:message-built", "c01:message-roundtrip-done"], "tier": "thorough"},
@@ -113,9 +115,10 @@ CHECKS = {
                       "and 1, every thread choice at blocking points explored (plus P pre-emptions in the thorough tier). Verdicts: every envelope whose "
                       "send succeeded is delivered exactly once (pointer identity), nothing else is delivered, and same-kind envelopes of one sender keep "
                       "their order. A one-step lemma shows that the receiver puts an arbitrary inbound envelope on exactly one stream, of its kind, as "
-                      "received. The TCP byte/frame path is C12's claim, dispatch-to-one-handler is C20's.",
+                      "received. The WebSocket transport: " + WS_NOTE + "every message sent is received once, intact and in order, an undecodable message fails one receive only, "
+                      "nothing is received after a failed read, a successful Send puts exactly the envelope's JSON on the wire. The TCP byte/frame path is C12's claim, dispatch-to-one-handler is C20's.",
         "level_note": "Trusted: SSA->SMT executor, bounded cooperative scheduler (no instruction-level races), FIFO semantics of Go channels as modelled, z3. "
-                      "Bounds: <= 2 senders, <= 2 envelopes each, buffers {0,1}, P = 0 / 1. Real sockets, TLS, gorilla framing and payload sizes are outside the claim.",
+                      "Bounds: <= 2 senders, <= 2 envelopes each, buffers {0,1}, P = 0 / 1; WebSocket: <= 2 messages, 1 / 2 fragmented reads, 1 stall. Real sockets, TLS, gorilla's framing itself (modelled at message level) and payload sizes are outside the claim.",
         "runs": [
             {"harness": "HarnessC04Route", "reach": ["c04:receiver-ran"], "threads": True},
             {"harness": "HarnessC04Pipe", "grid": {"buf": [0, 1], "tbuf": [0, 1]}, "params": {"sched": 1, "senders": 1, "per": 2},
@@ -124,11 +127,16 @@ CHECKS = {
              "reach": ["c04:settled"], "threads": True, "tier": "quick"},
             {"harness": "HarnessC05Match", "grid": {"order": [0, 1]}, "params": {"sched": 1, "requesters": 2, "responses": 2},
              "reach": ["c05:settled"], "threads": True},
-            {"harness": "HarnessC04Pipe", "grid": {"buf": [0, 1], "tbuf": [0, 1]}, "params": {"sched": 1, "P": 1, "senders": 2, "per": 2},
+            {"harness": "HarnessWSReceive", "params": {"sched": 1, "garbage": 1, "frag": 1, "frames": 2, "timeouts": 1}, "reach": ["c04:ws-received-one", "c04:ws-receive-error"], "threads": True, "tier": "quick"},
+            {"harness": "HarnessWSSend", "params": {"sched": 1, "sends": 2, "timeouts": 1}, "reach": ["c04:ws-send-returned"], "threads": True},
+            {"harness": "HarnessWSReceive", "grid": {"garbage": [0, 1]}, "params": {"sched": 1, "frag": 2, "frames": 2, "timeouts": 1}, "reach": ["c04:ws-received-one", "c04:ws-receive-error"], "threads": True, "tier": "thorough", "timeout": 3000},
+            {"harness": "HarnessC04Pipe", "grid": {"buf": [0, 1], "tbuf": [0, 1]}, "params": {"sched": 1, "P": 0, "senders": 2, "per": 2},
+             "reach": ["c04:settled"], "threads": True, "tier": "thorough", "timeout": 7000},
+            {"harness": "HarnessC04Pipe", "grid": {"buf": [0, 1], "tbuf": [0, 1]}, "params": {"sched": 1, "P": 1, "senders": 1, "per": 2},
              "reach": ["c04:settled"], "threads": True, "tier": "thorough", "timeout": 7000},
         ],
-        "bounds": {"quick": {"senders": 2, "envelopes_per_sender": 2, "preemptions": 0}, "thorough": {"senders": 2, "envelopes_per_sender": 2, "preemptions": 1}},
-        "out": ["real sockets, TLS, WebSocket framing", "payload sizes (C12/C16)", "more than two senders", "instruction-level data races"],
+        "bounds": {"quick": {"senders": 2, "envelopes_per_sender": 2, "preemptions": 0}, "thorough": {"senders": "2 (P=0) / 1 (P=1)", "envelopes_per_sender": 2, "preemptions": 1}},
+        "out": ["real sockets, TLS, WebSocket framing below the message level (gorilla is a model in the engine, the real code natively)", "payload sizes (C12/C16)", "more than two senders", "instruction-level data races"],
         "assumptions": [],
     },
     "C05": {
@@ -148,6 +156,8 @@ CHECKS = {
             {"harness": "HarnessC05Match", "grid": {"order": [0, 1]}, "params": {"sched": 1, "P": 2, "requesters": 2, "responses": 3},
              "reach": ["c05:settled"], "threads": True, "tier": "thorough"},
             {"harness": "HarnessC05Reuse", "params": {"sched": 1, "P": 1}, "reach": ["c05:second-request-returned"], "threads": True},
+            {"harness": "HarnessC05SendFail", "params": {"sched": 1, "P": 1}, "reach": ["c05:first-attempt-returned"], "threads": True},
+            {"harness": "HarnessC05LateResponse", "grid": {"P": [0, 1]}, "params": {"sched": 1}, "reach": ["c05:late-response-attempt-returned"], "threads": True},
         ],
         "bounds": {"quick": {"requesters": 2, "responses": 2, "preemptions": 1}, "thorough": {"requesters": 2, "responses": 3, "preemptions": 2}},
         "out": ["more than two concurrent requesters", "instruction-level data races"],
@@ -164,7 +174,7 @@ CHECKS = {
                       "transport.Send when another goroutine ends the session concurrently is outside the claim (instruction-level schedule).",
         "runs": [
             {"harness": "HarnessC06Send", "grid": {"op": [0, 1, 2, 3, 4, 5]}, "reach": ["c06:not-established"]},
-            {"harness": "HarnessC06AfterEnd", "grid": {"end": [0, 1, 2, 3], "buf": [0, 1]}, "reach": ["c06:session-ended"], "threads": True},
+            {"harness": "HarnessC06AfterEnd", "grid": {"end": [0, 1, 2, 3, 4], "buf": [0, 1]}, "reach": ["c06:session-ended"], "threads": True},
             {"harness": "HarnessC06Inject", "grid": {"role": [0, 1]}, "params": {"depth": 3, "enccfg": 2, "transport": 0},
              "reach": ["c06:data-envelope-before-establishment"], "tier": "quick"},
             {"harness": "HarnessC06Inject", "grid": {"role": [0, 1], "enccfg": [0, 2], "transport": [0, 2]}, "params": {"depth": 5},
@@ -183,10 +193,10 @@ CHECKS = {
         "runs": [
             {"harness": "HarnessC07Server", "grid": {"enccfg": [0, 1, 2, 3], "transport": [0, 1, 2]}, "params": {"depth": 4}, "skip": INSANE,
              "reach": ["c07:handshake-returned", "c07:client-violated-the-exchange"], "tier": "quick"},
-            {"harness": "HarnessC07Server", "grid": {"enccfg": [0, 1, 2, 3], "transport": [0, 1, 2], "authnil": [0, 1]}, "params": {"depth": 6}, "skip": INSANE,
+            {"harness": "HarnessC07Server", "grid": {"enccfg": [0, 1, 2, 3], "transport": [0, 1, 2], "authnil": [0, 1]}, "params": {"depth": 5}, "skip": INSANE,
              "reach": ["c07:handshake-returned"], "tier": "thorough"},
         ],
-        "bounds": {"quick": {"script_depth": 4}, "thorough": {"script_depth": 6}},
+        "bounds": {"quick": {"script_depth": 4}, "thorough": {"script_depth": 5}},
         "out": ["transport send failures during FailSession (C14)", "byte-level input (C02)"],
         "assumptions": ["callbacks return normally"],
     },
@@ -221,7 +231,7 @@ CHECKS = {
             {"harness": "HarnessC09TCPEncryption", "reach": ["c09:upgraded", "c09:handshake-failed"], "replay_reach": 0},
             {"harness": "HarnessC09Server", "grid": {"enccfg": [0, 1, 2, 3], "transport": [0, 1, 2]}, "params": {"depth": 4}, "skip": INSANE,
              "reach": ["c09:handshake-returned"], "tier": "quick"},
-            {"harness": "HarnessC09Server", "grid": {"enccfg": [0, 1, 2, 3], "transport": [0, 1, 2], "setfails": [0, 1]}, "params": {"depth": 6}, "skip": INSANE,
+            {"harness": "HarnessC09Server", "grid": {"enccfg": [0, 1, 2, 3], "transport": [0, 1, 2], "setfails": [0, 1]}, "params": {"depth": 5}, "skip": INSANE,
              "reach": ["c09:handshake-returned"], "tier": "thorough"},
         ],
         "bounds": {"quick": {"script_depth": 4}, "thorough": {"script_depth": 6}},
@@ -258,7 +268,8 @@ CHECKS = {
         "runs": [
             {"harness": "HarnessC12Write", "params": {"len": 3, "timeouts": 2}, "reach": ["c12:write-succeeded"], "tier": "quick"},
             {"harness": "HarnessC12Read", "params": {"len": 3, "timeouts": 2}, "reach": ["c12:read-succeeded"], "tier": "quick"},
-            {"harness": "HarnessC12Send", "params": {"sends": 2, "timeouts": 2}, "reach": ["c12:send-returned"], "tier": "quick"},
+            {"harness": "HarnessC12Send", "grid": {"trace": [0, 1]}, "params": {"sends": 2, "timeouts": 2}, "reach": ["c12:send-returned"], "tier": "quick"},
+            {"harness": "HarnessC12Receive", "params": {"frames": 2, "timeouts": 1, "frag": 1, "viaaccept": 1, "kind0": 0}, "reach": ["c12:received-one"], "tier": "quick"},
             {"harness": "HarnessC12Receive", "grid": {"cancel": [0, 1], "kind0": [0, 1, 2, 3, 4, 5]}, "params": {"frames": 2, "timeouts": 1, "frag": 1},
              "reach": ["c12:received-one"], "tier": "quick"},
             {"harness": "HarnessC12Write", "grid": {"len": [4, 5]}, "params": {"timeouts": 3}, "reach": ["c12:write-succeeded"], "tier": "thorough"},
@@ -277,18 +288,20 @@ CHECKS = {
                       "return by the deadline, or within one poll interval of a cancellation. (b) in-process Send/Receive/Accept, channel send, "
                       "ProcessCommand, receiveSession, client FinishSession and EstablishSession, and the TCP listener's Accept are executed with a "
                       "context that has already ended or ends while they block on a silent / non-reading peer: no path leaves the caller blocked, and "
-                      "the error wraps the context's error.",
+                      "the error wraps the context's error. (c) WebSocket: " + WS_NOTE + "Send to a peer that does not read (the write is blocked on the socket) and "
+                      "Receive from a silent peer return with the context's error once the context ends and leave no helper goroutine behind.",
         "level_note": "Trusted: SSA->SMT executor, scheduler (timers fire when no thread can run), z3. Bounds: 3 / 5 poll iterations, queue capacity 1. "
-                      "WebSocket Send/Receive (helper goroutine + gorilla's deadlines), the TLS handshake's duration and lock contention are outside the claim; "
+                      "gorilla's internals below WriteJSON/ReadJSON (a model), the TLS handshake's duration and lock contention are outside the claim; "
                       "time is symbolic.",
         "runs": [
             {"harness": "HarnessC15Poll", "grid": {"op": [0, 1]}, "params": {"polls": 3}, "reach": ["c15:poll-returned"], "tier": "quick"},
             {"harness": "HarnessC15Poll", "params": {"op": 1, "polls": 3, "partial": 1}, "reach": ["c15:poll-returned"], "tier": "quick"},
             {"harness": "HarnessC15Poll", "grid": {"op": [0, 1]}, "params": {"polls": 5}, "reach": ["c15:poll-returned"], "tier": "thorough", "qtimeout": 300},
             {"harness": "HarnessC15Block", "grid": {"op": [0, 1, 2, 3, 4, 5, 6, 7, 8], "ctxmode": [0, 1]}, "reach": ["c15:operation-returned"]},
+            {"harness": "HarnessC15WS", "grid": {"op": [0, 1], "ctxmode": [0, 1]}, "params": {"sched": 1}, "reach": ["c15:ws-operation-returned"], "threads": True},
         ],
         "bounds": {"quick": {"poll_iterations": 3}, "thorough": {"poll_iterations": 5}},
-        "out": ["WebSocket transport", "TLS handshake duration", "lock contention", "wall-clock (time is a symbolic non-decreasing sequence)"],
+        "out": ["gorilla's internals (model at the level of the methods lime-go calls)", "websocket listener / dialer (net/http)", "TLS handshake duration", "lock contention", "wall-clock (time is a symbolic non-decreasing sequence)"],
         "assumptions": ["a stalled socket call returns a timeout no earlier than the armed deadline"],
     },
     "C16": {
@@ -301,8 +314,8 @@ CHECKS = {
                       "frame size <= 3*limit+64, <= 1 / 2 predecessors, <= 2 arbitrary fragments, <= 1 / 2 transient timeouts. An envelope is measured by its wire "
                       "footprint (text + one delimiter byte).",
         "runs": [
-            {"harness": "HarnessC16Budget", "grid": {"trace": [0, 1]}, "params": {"pre": 1, "timeouts": 1, "frag": 2}, "reach": ["c16:oversized", "c16:within-limit"], "tier": "quick"},
-            {"harness": "HarnessC16Budget", "grid": {"trace": [0, 1]}, "params": {"pre": 2, "timeouts": 2, "frag": 3}, "reach": ["c16:oversized", "c16:within-limit"], "tier": "thorough", "qtimeout": 300},
+            {"harness": "HarnessC16Budget", "grid": {"trace": [0, 1], "viaaccept": [0, 1]}, "params": {"pre": 1, "timeouts": 1, "frag": 2}, "reach": ["c16:oversized", "c16:within-limit"], "tier": "quick"},
+            {"harness": "HarnessC16Budget", "grid": {"trace": [0, 1], "viaaccept": [0, 1]}, "params": {"pre": 2, "timeouts": 2, "frag": 3}, "reach": ["c16:oversized", "c16:within-limit"], "tier": "thorough", "qtimeout": 300},
         ],
         "bounds": {"quick": {"predecessors": 1}, "thorough": {"predecessors": 2}},
         "out": ["json.Decoder's real buffering policy (the model allows any read length >= 1, a superset)", "limits outside [256, 4096]"],
@@ -317,7 +330,7 @@ CHECKS = {
                       "sides, both connections are closed, dispatch loop and serving goroutine return, Finished fires once, and no goroutine is left. "
                       "Termination through Client.Close and Server.Close is covered by the C19 and C18 runs listed here.",
         "level_note": "Trusted: SSA->SMT executor, bounded cooperative scheduler (no instruction-level races), z3. Bounds: one session, <= 1 in-flight envelope "
-                      "per direction, buffers {0,1}, P = 0 / 1. Real transports' own goroutines (websocket helpers, TLS) are outside the claim.",
+                      "per direction, buffers {0,1}; pre-emptions only in the dedicated race harnesses (P <= 2 / 3). Real transports' own goroutines (websocket helpers, TLS) are outside the claim.",
         "runs": [
             {"harness": "HarnessC13Teardown", "grid": {"who": [0, 1, 2], "buf": [0, 1]}, "params": {"sched": 1, "tbuf": 1},
              "reach": ["c13:end-settled"], "threads": True, "tier": "quick"},
@@ -325,8 +338,8 @@ CHECKS = {
              "reach": ["c13:end-settled"], "threads": True, "tier": "quick"},
             {"harness": "HarnessC13Teardown", "grid": {"who": [0, 1, 2]}, "params": {"sched": 1, "tbuf": 0, "buf": 0},
              "reach": ["c13:end-settled"], "threads": True, "tier": "thorough"},
-            {"harness": "HarnessC13Teardown", "grid": {"who": [0, 1, 2], "buf": [0, 1], "tbuf": [0, 1]}, "params": {"sched": 1, "P": 1},
-             "reach": ["c13:end-settled"], "threads": True, "tier": "thorough", "timeout": 7000},
+            {"harness": "HarnessC13HangUp", "grid": {"who": [0, 1], "tbuf": [0, 1]}, "params": {"sched": 1, "P": 3},
+             "reach": ["c13:hangup-settled"], "threads": True, "tier": "thorough", "timeout": 7000},
             {"harness": "HarnessC13HangUp", "grid": {"who": [0, 1], "tbuf": [0, 1], "P": [1, 2]}, "params": {"sched": 1},
              "reach": ["c13:hangup-settled"], "threads": True},
             {"harness": "HarnessC13Teardown", "grid": {"who": [1, 2]}, "params": {"sched": 1, "tbuf": 0, "buf": 1, "hangup": 1},
@@ -351,6 +364,7 @@ CHECKS = {
             {"harness": "HarnessC14Serve", "grid": {"enccfg": [0, 1, 2, 3], "transport": [0, 1, 2]}, "params": {"depth": 4},
              "reach": ["c14:serve-returned", "c14:never-established"], "tier": "quick"},
             {"harness": "HarnessC14TCP", "grid": {"fault": [0, 1, 2, 3]}, "reach": ["c14:tcp-serve-returned"]},
+            {"harness": "HarnessC14WS", "grid": {"fault": [0, 1, 2]}, "params": {"sched": 1}, "reach": ["c14:ws-serve-returned"], "threads": True},
             {"harness": "HarnessC14Serve", "grid": {"transport": [0, 2]}, "params": {"enccfg": 2, "depth": 3, "dropnotice": 1},
              "reach": ["c14:serve-returned", "c14:never-established"]},
             {"harness": "HarnessC14Serve", "grid": {"enccfg": [0, 1, 2, 3], "transport": [0, 1, 2], "sendfails": [0, 1]}, "params": {"depth": 5},
@@ -371,12 +385,13 @@ CHECKS = {
         "level_note": "Trusted: SSA->SMT executor, bounded cooperative scheduler (no instruction-level races), uuid values modelled as pairwise distinct, z3. "
                       "Bounds: 2 sessions, 1 / 2 data messages each, channel buffer {0,1}, P = 0 / 1.",
         "runs": [
+            {"harness": "HarnessC17Context", "grid": {"buf": [0, 1]}, "params": {"sched": 1}, "reach": ["c17:all-kinds-dispatched"], "threads": True},
             {"harness": "HarnessC17Sessions", "grid": {"buf": [0, 1]}, "params": {"sched": 1, "msgs": 1}, "reach": ["c17:sessions-settled"],
              "threads": True, "tier": "quick"},
-            {"harness": "HarnessC17Sessions", "grid": {"buf": [0, 1]}, "params": {"sched": 1, "P": 1, "msgs": 2}, "reach": ["c17:sessions-settled"],
+            {"harness": "HarnessC17Sessions", "grid": {"buf": [0, 1]}, "params": {"sched": 1, "P": 0, "msgs": 2}, "reach": ["c17:sessions-settled"],
              "threads": True, "tier": "thorough", "timeout": 7000},
         ],
-        "bounds": {"quick": {"sessions": 2, "messages": 1}, "thorough": {"sessions": 2, "messages": 2, "preemptions": 1}},
+        "bounds": {"quick": {"sessions": 2, "messages": 1}, "thorough": {"sessions": 2, "messages": 2, "preemptions": 0}},
         "out": ["uuid collisions", "more than two sessions (symmetry argument only)", "instruction-level data races", "mixed real transports"],
         "assumptions": ["uuid.NewString returns pairwise distinct values"],
     },
@@ -389,20 +404,24 @@ CHECKS = {
                       "handleChannel runs of C14: Established exactly once iff the session reached established and before any handler, Finished exactly "
                       "once afterwards for the same id - also when the client drops the connection abruptly.",
         "level_note": "Trusted: SSA->SMT executor, bounded cooperative scheduler (switches at blocking points, <= P pre-emptions at synchronisation operations; "
-                      "no instruction-level races, e.g. the unsynchronised srv.shutdown field), z3. Bounds: <= 2 listeners, <= 1 session, P = 1 / 2.",
+                      "no instruction-level races, e.g. the unsynchronised srv.shutdown field), z3. Bounds: <= 2 listeners, <= 1 session, P <= 1.",
         "runs": [
             {"harness": "HarnessC18StartStop", "grid": {"when": [0, 1]}, "params": {"sched": 1, "P": 1, "listeners": 1},
              "reach": ["c18:closed"], "threads": True, "tier": "quick"},
             {"harness": "HarnessC18StartStop", "grid": {"when": [0, 1], "closeerr": [0, 1]}, "params": {"sched": 1, "P": 0, "listeners": 2},
              "reach": ["c18:closed"], "threads": True, "tier": "quick"},
-            {"harness": "HarnessC18StartStop", "grid": {"when": [0, 1], "backlog": [0, 1]}, "params": {"sched": 1, "P": 2, "listeners": 1},
+            {"harness": "HarnessC18StartStop", "params": {"sched": 1, "P": 0, "listeners": 2, "slowlisten": 1, "when": 0},
+             "reach": ["c18:closed"], "threads": True},
+            {"harness": "HarnessC14Serve", "params": {"enccfg": 2, "transport": 2, "depth": 4, "schemecfg": 0, "compcfg": 0, "sendfails": 1},
+             "reach": ["c18:served-established-session"]},
+            {"harness": "HarnessC18StartStop", "grid": {"when": [0, 1], "backlog": [0, 1]}, "params": {"sched": 1, "P": 1, "listeners": 1},
              "reach": ["c18:closed"], "threads": True, "tier": "thorough", "timeout": 7000},
             {"harness": "HarnessC18StartStop", "grid": {"when": [0, 1], "closeerr": [0, 1]}, "params": {"sched": 1, "P": 1, "listeners": 2},
              "reach": ["c18:closed"], "threads": True, "tier": "thorough", "timeout": 7000},
             {"harness": "HarnessC14Serve", "grid": {"transport": [0, 2]}, "params": {"enccfg": 2, "depth": 4, "schemecfg": 0, "compcfg": 0, "dropnotice": 1},
              "reach": ["c18:served-established-session"]},
         ],
-        "bounds": {"quick": {"listeners": 2, "sessions": 1, "preemptions": 1}, "thorough": {"listeners": 2, "sessions": 1, "preemptions": 2}},
+        "bounds": {"quick": {"listeners": 2, "sessions": 1, "preemptions": 1}, "thorough": {"listeners": 2, "sessions": 1, "preemptions": 1}},
         "out": ["real listeners' own goroutines", "more than one session", "instruction-level data races"],
         "assumptions": ["callbacks return normally"],
     },
@@ -418,11 +437,11 @@ CHECKS = {
                       "Busy-looping is an engine-side verdict (not observable natively); its consequences (no fresh session, deaf listener, untruthful send) are "
                       "replayed natively. Back-off sleep timing and repeated faults are outside the claim.",
         "runs": [
-            {"harness": "HarnessC19Recover", "grid": {"fault": [0, 1, 2, 3, 4], "inbound1": [0, 1], "P": [0, 1]}, "params": {"sched": 1, "spinok": 1},
+            {"harness": "HarnessC19Recover", "grid": {"fault": [0, 1, 2, 3, 4, 5], "inbound1": [0, 1], "P": [0, 1]}, "params": {"sched": 1, "spinok": 1},
              "unroll": 5, "reach": ["c19:send-after-fault-returned"], "threads": True, "tier": "quick"},
             {"harness": "HarnessC19Recover", "grid": {"fault": [0, 1], "P": [0, 1]}, "params": {"sched": 1, "spinok": 1, "badid": 1},
              "unroll": 5, "reach": ["c19:send-after-fault-returned"], "threads": True},
-            {"harness": "HarnessC19Recover", "grid": {"fault": [0, 1, 2, 3, 4], "inbound1": [0, 1]}, "params": {"sched": 1, "spinok": 1, "P": 2},
+            {"harness": "HarnessC19Recover", "grid": {"fault": [0, 1, 2, 3, 4, 5], "inbound1": [0, 1]}, "params": {"sched": 1, "spinok": 1, "P": 2},
              "unroll": 5, "reach": ["c19:send-after-fault-returned"], "threads": True, "tier": "thorough", "timeout": 7000},
         ],
         "bounds": {"quick": {"faults": 1, "preemptions": 1}, "thorough": {"faults": 1, "preemptions": 2}},
